@@ -225,6 +225,9 @@ func (r *Run) observeStorageCall(ci *CallInfo) {
 		}
 		if label, ok := r.Secrets[val]; ok {
 			r.violate("C20", "storage-secret", ci.Name+":"+where+":"+label, "%s received the cleartext %s as %s", ci.Name, label, where)
+			if label == "device_code" || label == "user_code" {
+				r.violate("C16", "code-stored-in-cleartext", ci.Name+":"+where+":"+label, "%s received the cleartext %s as %s (device and user codes are stored only as signatures)", ci.Name, label, where)
+			}
 		} else if r.storageSeen != nil {
 			if _, dup := r.storageSeen[val]; !dup && len(r.storageSeen) < 20000 {
 				r.storageSeen[val] = ci.Name + ":" + where
